@@ -238,6 +238,95 @@ fn run_fmt_n(ctx: &Ctx, f: &dyn Fmt, other: &dyn Fmt, who: &str, cases: usize) -
     Ok(())
 }
 
+/// Every single-byte corruption of one small file: at each position the byte is incremented, one bit is flipped and
+/// the byte is set to 0xFF (the property names "all single-byte corruptions" explicitly).
+fn sweep_fmt(ctx: &Ctx, f: &dyn Fmt, who: &str, max_len: usize, variants: usize) -> R {
+    ctx.note("format", f.describe());
+    let Some(w) = write_ref(ctx, f) else { return Ok(()) };
+    if w.bytes.len() > max_len {
+        ctx.count("skipped.too_long_for_sweep", 1);
+        return Ok(());
+    }
+    let r0 = f.read(ctx, Arc::new(w.bytes.clone()), Plan::none());
+    if r0.err.is_some() || r0.invalid.is_some() {
+        ctx.count("skipped", 1);
+        ctx.count("skipped.reference_read_failed", 1);
+        return Ok(());
+    }
+    ctx.nontrivial();
+    ctx.shape(who, w.bytes.len() as u64, 0);
+    let n = w.bytes.len();
+    for j in ctx.sweep("b", n * variants) {
+        ctx.set_at("b", j as u64);
+        let (pos, variant) = (j / variants, j % variants);
+        let mut v = w.bytes.clone();
+        let what = match variant {
+            0 => {
+                v[pos] = v[pos].wrapping_add(1);
+                format!("byte {pos} + 1")
+            }
+            1 => {
+                let bit = (pos * 5 + 3) % 8;
+                v[pos] ^= 1 << bit;
+                format!("flip bit {bit} of byte {pos}")
+            }
+            _ => {
+                if v[pos] == 0xFF {
+                    continue;
+                }
+                v[pos] = 0xFF;
+                format!("byte {pos} <- 0xff")
+            }
+        };
+        ctx.fault("disk.single_byte", pos as u64);
+        // (a listed known finding does not end the sweep: the bytes behind it are still visited)
+        simcore::runner::sweep_case(ctx, || {
+            simcore::alloc::reset();
+            let r = f.read(ctx, Arc::new(v), Plan::none());
+            ctx.count("executions", 1);
+            ctx.step();
+            judge(ctx, who, &r, &what)?;
+            mem(ctx, who, n, &what)
+        })?;
+    }
+    ctx.clear_at("b");
+    Ok(())
+}
+
+fn sweep_ipc_stream(ctx: &Ctx) -> R {
+    let mut p = ipc_profile(ctx);
+    p.str_style = gen::types_api::StrStyle::Text;
+    p.max_cols = 2;
+    if ctx.chance(2, 3, "c08.sweep.strings") {
+        // mostly variable-length columns: offsets, views and validity are where single bytes matter most
+        use gen::types_api::Leaf::*;
+        p.leaves = vec![Utf8, LargeUtf8, Utf8View, Binary, I32, Bool, Utf8];
+        p.max_depth = 1;
+    }
+    let f = IpcFmt { wl: gen_workload(ctx, &p, 2, 6, false), cfg: IpcCfg::gen(ctx, false) };
+    // (a damaged body length costs the stream reader a 64 MiB zeroed pre-allocation: one variant, short files)
+    sweep_fmt(ctx, &f, "ipc.stream_reader", 1500, 1)
+}
+
+fn sweep_parquet(ctx: &Ctx) -> R {
+    let mut p = pq_profile_basic(ctx);
+    p.max_cols = 2;
+    let wl = gen_workload(ctx, &p, 1, 12, false);
+    let mut cfg = PqCfg::gen(ctx);
+    cfg.bloom = false;
+    if cfg.enc_salt == 0 {
+        cfg.enc_salt = 1 + ctx.draw(200, "c08.enc_salt") as u8;
+    }
+    cfg.page_index = ctx.chance(1, 2, "c08.pageindex");
+    sweep_fmt(ctx, &PqFmt { wl, cfg, flush_after: vec![] }, "parquet.reader", 2500, 3)
+}
+
+fn sweep_avro(ctx: &Ctx) -> R {
+    let p = avro_profile(ctx);
+    let f = AvroFmt::new(gen_workload(ctx, &p, 2, 6, false), AvroFmt::gen_cfg(ctx, true));
+    sweep_fmt(ctx, &f, "avro.ocf_reader", 2500, 3)
+}
+
 fn ipc(ctx: &Ctx, file: bool) -> R {
     let mut p = ipc_profile(ctx);
     if ctx.chance(1, 2, "c08.text") {
@@ -607,6 +696,9 @@ fn main() {
             Scenario { name: "csv", runs_quick: 800, runs_thorough: 30000, f: csv },
             Scenario { name: "json", runs_quick: 800, runs_thorough: 30000, f: json },
             Scenario { name: "variant", runs_quick: 1500, runs_thorough: 60000, f: variant },
+            Scenario { name: "sweep_ipc_stream", runs_quick: 96, runs_thorough: 4000, f: sweep_ipc_stream },
+            Scenario { name: "sweep_parquet", runs_quick: 240, runs_thorough: 8000, f: sweep_parquet },
+            Scenario { name: "sweep_avro", runs_quick: 120, runs_thorough: 4000, f: sweep_avro },
         ],
     );
 }
